@@ -26,9 +26,16 @@ func (m *memRW) Read(b []byte) (int, error) {
 	m.pos += n
 	return n, nil
 }
-func (m *memRW) Write(b []byte) (int, error)                  { m.data = append(m.data, b...); m.marks = append(m.marks, len(m.data)); return len(b), nil }
-func (m *memRW) Seek(offset int64, whence int) (int64, error) { m.pos = int(offset); return offset, nil }
-func (m *memRW) Close() error                                 { return nil }
+func (m *memRW) Write(b []byte) (int, error) {
+	m.data = append(m.data, b...)
+	m.marks = append(m.marks, len(m.data))
+	return len(b), nil
+}
+func (m *memRW) Seek(offset int64, whence int) (int64, error) {
+	m.pos = int(offset)
+	return offset, nil
+}
+func (m *memRW) Close() error { return nil }
 func (m *memRW) Truncate(size int64) error {
 	m.data = m.data[:size]
 	if m.synced > len(m.data) {
@@ -37,7 +44,7 @@ func (m *memRW) Truncate(size int64) error {
 	m.marks = nil
 	return nil
 }
-func (m *memRW) Sync() error                                  { m.synced = len(m.data); return nil }
+func (m *memRW) Sync() error { m.synced = len(m.data); return nil }
 
 // VerifContent: what a reader positioned at the start of the file sees.
 func (m *memRW) VerifContent() []byte { return m.data }
@@ -202,40 +209,46 @@ func Verif_C02_RecoverThenDurable() {
 // log first, as a server started with or without restore does) and logs a write in an arbitrary,
 // possibly different, possibly equal database; the third restores: both writes come back, in order,
 // each in the database it ran in — whatever database the previous lifetime ended in.
-func Verif_C02_AppendAcrossRestart() {
+func verifAppendAcrossRestart(tag string) {
 	rw := &memRW{}
 	strategy := strategyOf(vr.Choose("strategy", 3))
 	st1, err := NewAppendStore(WithReadWriter(rw), WithStrategy(strategy))
-	vr.Assert(err == nil, "C02.restart_append.new")
+	vr.Assert(err == nil, tag+".restart_append.new")
 	n1 := 1 + vr.Choose("n1", 2)
 	var want []replayed
 	for i := 0; i < n1; i++ {
 		db := symDB("db1_" + strconv.Itoa(i))
 		cmd := symCommand("c1_" + strconv.Itoa(i))
-		vr.Assert(st1.Write(db, []byte(cmd)) == nil, "C02.restart_append.write_acknowledged")
+		vr.Assert(st1.Write(db, []byte(cmd)) == nil, tag+".restart_append.write_acknowledged")
 		want = append(want, replayed{db, cmd})
 	}
 	// second lifetime
 	st2, _ := NewAppendStore(WithReadWriter(rw), WithStrategy(strategy),
 		WithHandleCommandFunc(func(database int, command []byte) {}))
 	if vr.Choose("restore_at_startup", 2) == 1 {
-		vr.Assert(st2.Restore() == nil, "C02.restart_append.restore_succeeds")
+		vr.Assert(st2.Restore() == nil, tag+".restart_append.restore_succeeds")
 	}
 	db2 := symDB("db2")
 	cmd2 := symCommand("c2")
-	vr.Assert(st2.Write(db2, []byte(cmd2)) == nil, "C02.restart_append.write_acknowledged")
+	vr.Assert(st2.Write(db2, []byte(cmd2)) == nil, tag+".restart_append.write_acknowledged")
 	want = append(want, replayed{db2, cmd2})
 	// third lifetime
 	var got []replayed
 	st3, _ := NewAppendStore(WithReadWriter(rw), WithStrategy(strategy),
 		WithHandleCommandFunc(func(database int, command []byte) { got = append(got, replayed{database, string(command)}) }))
-	vr.Assert(st3.Restore() == nil, "C02.restart_append.restore_succeeds")
-	vr.Assert(len(got) == len(want), "C02.restart_append.every_command_is_replayed_once")
+	vr.Assert(st3.Restore() == nil, tag+".restart_append.restore_succeeds")
+	vr.Assert(len(got) == len(want), tag+".restart_append.every_command_is_replayed_once")
 	if len(got) == len(want) {
 		for i := range want {
-			vr.Assert(got[i].db == want[i].db, "C02.restart_append.replayed_in_the_database_it_was_logged_under")
-			vr.Assert(got[i].cmd == want[i].cmd, "C02.restart_append.replayed_bytes_equal_logged_bytes")
+			vr.Assert(got[i].db == want[i].db, tag+".restart_append.replayed_in_the_database_it_was_logged_under")
+			vr.Assert(got[i].cmd == want[i].cmd, tag+".restart_append.replayed_bytes_equal_logged_bytes")
 		}
 	}
 	vr.Reach("end")
 }
+
+func Verif_C02_AppendAcrossRestart() { verifAppendAcrossRestart("C02") }
+
+// The same history under C20: a write lands, after any number of restarts, in the database it was
+// issued in - the log's notion of "current database" does not leak from one lifetime into the next.
+func Verif_C20_AppendAcrossRestart() { verifAppendAcrossRestart("C20") }
